@@ -183,8 +183,8 @@ CHECKS = {
              "same id within the call gives identical outputs (values and hit/miss) from any two states of the table, in particular after any history and in a fresh process; "
              "(tidy_prefix_then_fresh) the same holds for any call if the history before it left every table empty; counterexample theorems show that neither guard can be dropped "
              "(an id recycled after an abandoned convert() answers with the dead graph's value). print_indent_only: printing writes nothing but `indent`, the op keeps its meaning and "
-             "compares equal; compile_reset: compile() on a reused object gives the results of a fresh object for every attribute it resets (macro_resolution_order is not one: "
-             "counterexample). On every run the recorded real histories (quick: ~10^4 sections) must agree with the machine and every recorded call must be Isolated or follow a Tidy "
+             "compares equal; compile_reset: compile() on an object in any state leaves exactly the object state and exception of a freshly constructed object (all result attributes "
+             "incl. macro_resolution_order, constructor state untouched). On every run the recorded real histories (quick: ~10^4 sections) must agree with the machine and every recorded call must be Isolated or follow a Tidy "
              "history - so the memo table cannot make a result depend on the history; all other process-wide state is covered by the exploration only: quick 100 histories x <= 6 calls, "
              "thorough 5000 x <= 20, with failing inputs, abandoned decompilations, repeated inputs, reused compiler objects, gc and allocation churn, the decompile CLI helpers, fresh "
              "processes with other hash seeds.",
@@ -192,8 +192,8 @@ CHECKS = {
              "audited per run), the instrumentation in harness/impl_cache.py (monkeypatches; completeness of the mutation hooks is cross-checked by graph fingerprints at every query), "
              "the driver's JSON glue. NOT modellable and covered by exploration only: which ids CPython recycles (allocator state; id reuse is provoked, and observed in every run, but not "
              "controlled), the ANTLR runtime's class-level ATN/DFA caches (known finding: they change the MESSAGE of ParseErrors), igraph's internals, hash-seed dependent iteration "
-             "orders. Known findings on the current tree: cli read_routines module-level counter, macro_resolution_order kept for SsbScript-marked sources, convert() twice on one "
-             "decompiler object, ParseError message; fixed during this round (16ab1ed): stale memo entry under a recycled id after an abandoned convert()."),
+             "orders. Known finding on the current tree: ParseError message. Found by this check and fixed in /repo during this round (oracle strict again): stale memo entry under a recycled id "
+             "after an abandoned convert() (16ab1ed), cli read_routines module-level counter (5dd8dac), macro_resolution_order not reset (9934639), convert() twice on one decompiler object (e16283a)."),
     "C12": dict(
         level="other", design="4/C12",
         technique="Lean 4 theorem about the same memo-table machine shared by any number of threads under EVERY interleaving of the atomic sections the real functions consist of "
